@@ -75,7 +75,7 @@ def _chunk(draw, text):
     if not text and draw(st.integers(0, 39)) == 0:
         # a binary chunk whose size sits next to a power-of-two boundary a buffered writer might split at
         # (the row count follows from the row size of the form when the chunk is built)
-        c["target_bytes"] = draw(st.sampled_from([65536, 2 ** 20, 2 ** 21])) + draw(st.sampled_from([0, 1, 4096]))
+        c["target_bytes"] = draw(st.sampled_from([65536, 2 ** 20, 2 ** 21, 2 ** 22, 2 ** 23])) + draw(st.sampled_from([0, 1, 4096]))
         c["layout"] = "contig"
     return c
 
